@@ -43,8 +43,8 @@ def correlation_centroid(im, ref, threshold=0., padding=1):
 
         cx, cy = centre_of_gravity(corr, threshold=threshold)
 
-        cy -= float(ny) / 2. * (float(padding) - 1)
-        cx -= float(nx) / 2. * (float(padding) - 1)
+        cy -= (ny * padding) // 2 - ny // 2
+        cx -= (nx * padding) // 2 - nx // 2
 
         centroids[:, frame] = cx, cy
 
